@@ -125,8 +125,9 @@ impl ZipIntVec {
     #[inline]
     pub fn set(&mut self, idx: usize, val: usize) {
         assert!(val >= self.min_val, "Value {} below minimum {}", val, self.min_val);
-        let max_val = self.min_val + self.inner.uintmask();
-        assert!(val <= max_val, "Value {} exceeds maximum {}", val, max_val);
+        // compare offsets: min_val + uintmask wraps for ranges that reach usize::MAX
+        let max_val = self.min_val.saturating_add(self.inner.uintmask());
+        assert!(val - self.min_val <= self.inner.uintmask(), "Value {} exceeds maximum {}", val, max_val);
         self.inner.set(idx, val - self.min_val);
     }
 
@@ -154,12 +155,8 @@ impl ZipIntVec {
         let &max_val = src.iter().max().unwrap();
 
         if min_val == max_val {
-            // All values are the same
-            let mut vec = Self::new(src.len(), min_val, min_val + 1);
-            for i in 0..src.len() {
-                vec.set(i, min_val);
-            }
-            return vec;
+            // All values are the same: zero bits per value (min_val + 1 wrapped for usize::MAX)
+            return Self { inner: UintVecMin0::new(src.len(), 0), min_val };
         }
 
         let mut vec = Self::new(src.len(), min_val, max_val);
@@ -181,12 +178,8 @@ impl ZipIntVec {
         let &max_val = src.iter().max().unwrap();
 
         if min_val == max_val {
-            // All values are the same
-            let mut vec = Self::new(src.len(), min_val as usize, (min_val + 1) as usize);
-            for i in 0..src.len() {
-                vec.set(i, min_val as usize);
-            }
-            return vec;
+            // All values are the same: zero bits per value (min_val + 1 wrapped for u32::MAX)
+            return Self { inner: UintVecMin0::new(src.len(), 0), min_val: min_val as usize };
         }
 
         let mut vec = Self::new(src.len(), min_val as usize, max_val as usize);
